@@ -1004,6 +1004,14 @@ pub fn c14(
                 Op::Next => {}
             },
             Rec::PeerSaw { .. } => {}
+            Rec::S("stream_end", _) if matches!(owner, Task::Stream(_)) => {
+                if unflushed > 0 && !sink_err {
+                    vs.push(mk(
+                        "C14-iii-finished-unflushed",
+                        format!("{owner:?} ended with {unflushed} written items neither flushed nor closed"),
+                    ));
+                }
+            }
             Rec::PollEnd(t, ready) if *t == owner => {
                 if !*ready && unflushed > 0 && !last_flush_pending_after_write && !sink_err {
                     vs.push(mk(
@@ -1011,7 +1019,8 @@ pub fn c14(
                         format!("{owner:?} returned Pending with {unflushed} written items not flushed and no flush pending"),
                     ));
                 }
-                if *ready && unflushed > 0 && !sink_err {
+                let terminal = *ready && !matches!(owner, Task::Stream(_));
+                if terminal && unflushed > 0 && !sink_err {
                     vs.push(mk(
                         "C14-iii-finished-unflushed",
                         format!("{owner:?} completed with {unflushed} written items neither flushed nor closed"),
@@ -1165,7 +1174,10 @@ pub fn configs(prop: CProp, tier: Tier) -> Vec<CCfg> {
         CProp::C03 | CProp::C18 => {
             let alpha = A_REPLY_UNOWED | A_ABANDON | A_PARK | A_DRAIN;
             for n in 1..=3usize {
-                for mif in 1..=2usize {
+                for mif in 1..=3usize {
+                    if mif == 3 && n != 2 {
+                        continue;
+                    }
                     for buf in [1usize, 2] {
                         for (fl, cap) in transports {
                             for pol in policies(n) {
@@ -1231,7 +1243,10 @@ pub fn configs(prop: CProp, tier: Tier) -> Vec<CCfg> {
         CProp::C10 => {
             let alpha = A_ABANDON | A_EOF | A_DROPROOT | A_REPLY_UNOWED | A_DRAIN | A_PARK;
             for n in 1..=3usize {
-                for mif in 1..=2usize {
+                for mif in 1..=3usize {
+                    if mif == 3 && n != 2 {
+                        continue;
+                    }
                     for (fl, cap) in transports {
                         for pol in policies(n) {
                             if n == 3 && !thorough && pol.iter().filter(|b| !**b).count() > 1 {
